@@ -18,7 +18,7 @@ import traceback
 HERE = os.path.dirname(os.path.abspath(__file__))
 sys.path.insert(0, HERE)
 
-from sa.pm import Program, AnalysisError  # noqa: E402
+from sa.pm import Program, AnalysisError, AnchorVanished  # noqa: E402
 from sa.report import Report  # noqa: E402
 
 
@@ -45,7 +45,7 @@ def run_property(pid: str, tier: str) -> int:
         return code
     except AnalysisError as e:
         print(f"ANALYSIS-ERROR property={pid}: {e}")
-        if rep.violations:
+        if rep.violations and not isinstance(e, AnchorVanished):
             # constructs already judged as violating stay reported: a violation takes precedence over the part of the
             # analysis that could not be completed (often the violating edit is what made the next idiom unrecognisable)
             rep.note(f"analysis aborted after the reported violation(s): {e}")
